@@ -144,7 +144,13 @@ func TestDriveC08(t *testing.T) {
 				if kind == "cmd" && r.Intn(4) == 0 {
 					xs = strconv.FormatFloat(float64(cur)+[]float64{0.5, 0.25, 0.125}[r.Intn(3)], 'f', -1, 64)
 				}
-				writeVal(xs)
+				if kind != "cmd" && r.Intn(3) == 0 {
+					// the same integer in another legal spelling (padding, blank lines, a sign, leading zeros): the file is
+					// longer than the number
+					writeVal(fmt.Sprintf([]string{"%20d\n", "\n\n  %d  \n\n", "%+d\n", "%019d", "%d\n\n\n\n\n\n\n\n\n\n\n\n\n\n\n\n\n\n\n\n"}[r.Intn(5)], cur))
+				} else {
+					writeVal(xs)
+				}
 			}
 			errp := internal.VerifUpdateSensor(sensor)
 			restore()
